@@ -52,7 +52,7 @@ type Result struct {
 	ProfShape int `json:"prof_shape,omitempty"`
 	// TraceShape selects what tempo_traces holds: 0 spans as the writer stores them; 1 some rows with an empty payload
 	// (the ndjson Zipkin decoder before fix abfd578 stored such rows); 2 payload types the reader does not know;
-	// 3 payloads that are neither JSON nor a protobuf span
+	// 3 payloads that are neither JSON nor a protobuf span; 4 Zipkin spans whose parentId is not a 64-bit hex id
 	TraceShape int `json:"trace_shape,omitempty"`
 	// NullAtRow k>0: the k-th row (1-based) carries a NULL: the value of a single-column statement (label names, values,
 	// tags), the last text column of a wider one
@@ -576,7 +576,15 @@ func ValueFor(col, sqlText string, row Row, idx int, ncols int, res *Result) dri
 				return "\x0a\xff\xff\xff\xff\x0fnot a span"
 			}
 			if idx%2 == 0 {
-				return fmt.Sprintf(`{"traceId":"%x","id":"%x","name":"op%d","timestamp":%d,"duration":5,"localEndpoint":{"serviceName":"svc"},"tags":{"a":"b","n":"%d"},"annotations":[{"timestamp":1,"value":"e"}]}`, tid, sid, idx, row.TsNs/1000, idx)
+				// every other Zipkin span has a parent; shape 4: parent ids no 64-bit id looks like (too long, odd, not hex)
+				parent := ""
+				if idx%4 == 2 {
+					parent = `"parentId":"00000000000000a1",`
+				}
+				if res.TraceShape == 4 {
+					parent = `"parentId":"` + []string{"000102030405060708090a0b0c0d0e0f", "abc", "zzzzzzzzzzzzzzzz", "0000000000000000000000000000000000a1"}[(idx/2)%4] + `",`
+				}
+				return fmt.Sprintf(`{"traceId":"%x","id":"%x",%s"name":"op%d","timestamp":%d,"duration":5,"localEndpoint":{"serviceName":"svc"},"tags":{"a":"b","n":"%d"},"annotations":[{"timestamp":1,"value":"e"}]}`, tid, sid, parent, idx, row.TsNs/1000, idx)
 			}
 			sp := &otlpTrace.Span{TraceId: []byte(tid), SpanId: []byte(sid), Name: fmt.Sprintf("op%d", idx), StartTimeUnixNano: uint64(row.TsNs), EndTimeUnixNano: uint64(row.TsNs + 5000),
 				Attributes: []*otlpCommon.KeyValue{{Key: "service.name", Value: &otlpCommon.AnyValue{Value: &otlpCommon.AnyValue_StringValue{StringValue: "svc"}}}}}
